@@ -91,7 +91,7 @@ Qed.
 
 Theorem query_correct s q : inv s -> cquery s q = Ok (aquery (abs s) q).
 Proof.
-  intros Hi. destruct q as [i|i ch|i n|i slot n|i|i|i j|i j]; [| | | | | |exact (c_eq_correct s i j Hi)|];
+  intros Hi. destruct q as [i|i ch|i n|i slot n|i|i|i j|i j|i w fl adj]; [| | | | | |exact (c_eq_correct s i j Hi)| |];
     unfold cquery, aquery; rewrite ?a_live_abs.
   - destruct (is_live s i) eqn:El; auto. apply is_live_getb in El as (b & Hb). rewrite Hb. cbn [bind].
     rewrite (aget_abs s i b Hb). pose proof (buf_view s i b Hi Hb) as V. destruct (m_blk b).
@@ -127,6 +127,11 @@ Proof.
     + destruct V as (_ & ->). reflexivity.
   - rewrite (c_eq_correct s i j Hi). cbn [bind]. unfold aquery. rewrite !a_live_abs.
     destruct (is_live s i && is_live s j); reflexivity.
+  - destruct (is_live s i) eqn:El; auto. apply is_live_getb in El as (b & Hb). rewrite Hb. cbn [bind].
+    rewrite (aget_abs s i b Hb). pose proof (buf_view s i b Hi Hb) as V. destruct (m_blk b) as [id|].
+    + destruct V as (k & Hk & L & Hl & -> & _). cbn [contents].
+      rewrite (Htp.pread_blk s id k 0 _ Hk L) by lia. cbn [bind]. rewrite drop_0. reflexivity.
+    + destruct V as (_ & ->). reflexivity.
 Qed.
 
 (* ---- facts about the value model *)
@@ -204,7 +209,7 @@ Proof. unfold abs, init_st. cbn. induction n; cbn; congruence. Qed.
 
 Definition query_slots (q : query) : list nat :=
   match q with
-  | QSize i | QGetCh i _ | QGetBuf i _ | QGetRange i _ _ | QGetStr i | QToString i => [i]
+  | QSize i | QGetCh i _ | QGetBuf i _ | QGetRange i _ _ | QGetStr i | QToString i | QStream i _ _ _ => [i]
   | QEq i j | QNe i j => [i; j]
   end.
 
@@ -682,4 +687,30 @@ Proof.
   destruct (Nat.eqb_spec x (base + n - 1)) as [->|Hne].
   - apply nth_upd_eq. apply a_live_lt. exact Llast.
   - rewrite nth_upd_neq by auto. apply HR.
+Qed.
+
+(* ---- wave 7: the stream operator *)
+Lemma pad_text_small w fl adj text : w <= len text -> pad_text w fl adj text = text.
+Proof. intros H. unfold pad_text. destruct (N.ltb_spec (len text) w); [lia|reflexivity]. Qed.
+Lemma len_pad_text w fl adj text : len (pad_text w fl adj text) = N.max w (len text).
+Proof.
+  unfold pad_text. destruct (N.ltb_spec (len text) w); [|lia].
+  destruct (adj =? 1); rewrite len_app, len_repeat; lia.
+Qed.
+
+Lemma stream_text_full :
+  forall fresh slots ops i w fl adj, Forall op_ok ops ->
+  exists s, crun fresh (init_st slots) ops = Ok s /\
+    (is_live s i = true ->
+     exists text, cquery s (QToString i) = Ok (ABytes text) /\
+       cquery s (QStream i w fl adj) = Ok (ABytes (pad_text w fl adj text)) /\
+       (w <= len text -> cquery s (QStream i w fl adj) = Ok (ABytes text)) /\
+       len (pad_text w fl adj text) = N.max w (len text) /\
+       width_after_insert w = 0).
+Proof.
+  intros fresh slots ops i w fl adj H. destruct (reach fresh slots ops H) as (s & E & I & _).
+  exists s. split; [exact E|]. intros Li. exists (join_dec (contents (aget (abs s) i))).
+  rewrite !(query_correct s _ I). unfold aquery. rewrite a_live_abs, Li.
+  split; [reflexivity|]. split; [reflexivity|]. split; [|split; [apply len_pad_text|reflexivity]].
+  intros Hw. rewrite pad_text_small by exact Hw. reflexivity.
 Qed.
